@@ -1016,13 +1016,14 @@ func posJudge(p *pProg, res pRun) (what, kind string) {
 }
 
 func shapeSig(p *pProg) string {
-	// the features that select a code path in throw/addTrace; failing kinds are folded
+	// the features that select a code path in throw/addTrace (other features are folded)
+	sel := map[string]bool{"recursion": true, "in-finally": true, "in-catch": true, "in-catch-finally": true,
+		"self-tail": true, "self-tail-via-module-copy": true, "module-body": true}
 	var keep []string
 	for _, s := range p.Shape {
-		if strings.HasPrefix(s, "fail:") || strings.HasPrefix(s, "call:") || s == "spread" {
-			continue
+		if sel[s] {
+			keep = append(keep, s)
 		}
-		keep = append(keep, s)
 	}
 	if len(keep) == 0 {
 		return "plain"
@@ -1047,7 +1048,11 @@ func posOracle(c *Ctx, p0 *pProg) {
 					RoundTrip bool   `json:"encode_decode"`
 					K         int    `json:"k"`
 				}{p, optimize, rt, k})
-				c.Violation(PropViolation{"C16", what, string(in), "C16:" + kind + ":" + shapeSig(p)})
+				sig := "C16:" + kind
+				if kind == "lines" {
+					sig += ":" + shapeSig(p)
+				}
+				c.Violation(PropViolation{"C16", what, string(in), sig})
 			}
 		}
 	}
